@@ -1,6 +1,8 @@
 """C08 -- libcola: overlap avoidance and cluster containment: the generation of the non-overlap constraints.
 
 Decides:
+  EXEMPT-GROUPS      NonOverlapConstraintExemptions: exempt pairs are exactly the pairs inside one declared group (interpreted on
+                     concrete id groups with duplicates); membership query and addShape honour exactly those
   PAIRS-COMPLETE     NonOverlapConstraints::addShape, interpreted on a fresh constraint object: after adding shapes 0..3 the pair list
                      holds every unordered pair of the same group exactly once (exempt ids and other groups excluded) and the
                      half-extents are stored as (halfDim[X], halfDim[Y]) = (halfW, halfH)
@@ -67,27 +69,40 @@ def rule_pairs(chk, prog):
     chk.sample({"rule": "PAIRS-COMPLETE", "pairs": pairs})
 
 
-def rule_form(chk, prog):
-    r = chk.rule("NONOVERLAP-FORM", "decision tree of NonOverlapConstraints::generateSeparationConstraints(dim) for one pair of plain shapes with "
-                 "symbolic rectangles; for 300 sampled integer rectangle pairs per dimension the leaf reached emits a constraint iff the "
-                 "rectangles overlap in the other dimension, between (lower centre var, higher centre var) with gap "
-                 "halfDim1[dim] + halfDim2[dim], and records the creator", floor=2)
-    fn = prog.fn("cola::NonOverlapConstraints::generateSeparationConstraints")
-    addf = prog.fn("cola::NonOverlapConstraints::addShape")
-    rng = random.Random(7)
-    for dim in (0, 1):
+_FORM_PROG = None
+
+
+def _form_worker(job):
+        dim, kinds = job
+        prog = _FORM_PROG
+        from ..microai.interp import default_obj
+        fn = prog.fn("cola::NonOverlapConstraints::generateSeparationConstraints")
+        addf = prog.fn("cola::NonOverlapConstraints::addShape")
+        addc = prog.fn("cola::NonOverlapConstraints::addCluster")
+        rng = random.Random(7 + dim * 4 + "sc".index(kinds[0]) * 2 + "sc".index(kinds[1]))
         def rect(i):
             return Obj("vpsc::Rectangle", {"minX": Poly.var("x%d" % i), "maxX": Poly.var("X%d" % i), "minY": Poly.var("y%d" % i),
                                             "maxY": Poly.var("Y%d" % i), "overlap": False})
 
+        # variable layout: plain shape i -> variable i (i = 0, 1); cluster i -> variables 2+2i (low side), 3+2i (high side)
+        def index(i):
+            return i if kinds[i] == "s" else 2 + 2 * i
+
         def run(o):
             it = Interp(prog, o, globals={"vpsc::Rectangle::xBorder": Box(Fraction(0)), "vpsc::Rectangle::yBorder": Box(Fraction(0))})
             noc = fresh_noc()
-            it.call(addf, noc, None, None, arg_values=[0, Poly.var("hw0"), Poly.var("hh0"), 1, SetVal()])
-            it.call(addf, noc, None, None, arg_values=[1, Poly.var("hw1"), Poly.var("hh1"), 1, SetVal()])
-            vs = Vec([Obj("vpsc::Variable", {"id": 0}), Obj("vpsc::Variable", {"id": 1})], "vpsc::Variable *")
+            for i in (0, 1):
+                if kinds[i] == "s":
+                    it.call(addf, noc, None, None, arg_values=[i, Poly.var("hw%d" % i), Poly.var("hh%d" % i), 1, SetVal()])
+                else:
+                    mbox = default_obj(prog, "cola::Box", {"m_min": Vec([Poly.var("mnx%d" % i), Poly.var("mny%d" % i)]),
+                                                           "m_max": Vec([Poly.var("mxx%d" % i), Poly.var("mxy%d" % i)])})
+                    cl = default_obj(prog, "cola::RectangularCluster", {"clusterVarId": index(i), "bounds": rect(i), "m_margin": mbox,
+                                                                        "nodes": SetVal()})
+                    it.call(addc, noc, None, None, arg_values=[cl, 1])
+            vs = Vec([Obj("vpsc::Variable", {"id": k}) for k in range(6)], "vpsc::Variable *")
             cs = Vec([], "vpsc::Constraint *")
-            bbs = Vec([rect(0), rect(1)], "vpsc::Rectangle *")
+            bbs = Vec([rect(0), rect(1)] + [None] * 4, "vpsc::Rectangle *")
             try:
                 it.call(fn, noc, None, None, arg_values=[dim, Box(vs), Box(cs), Box(bbs)])
                 return ("ret", cs, noc)
@@ -96,10 +111,12 @@ def rule_form(chk, prog):
         try:
             rows = enumerate_paths(run, limit=5000)
         except Unsupported as e:
-            raise AnalysisBroken("generateSeparationConstraints outside the interpreter subset: %s" % e)
+            return None, "UNSUPPORTED: %s" % e, 0
         bad = None
         n_pts = 0
-        for _ in range(300):
+        D = "xy"[dim]
+        O = "yx"[dim]
+        for _ in range(150):
             env = {}
             for i in (0, 1):
                 x = rng.randint(0, 8)
@@ -108,6 +125,8 @@ def rule_form(chk, prog):
                 env["y%d" % i], env["Y%d" % i] = Fraction(y), Fraction(y + rng.randint(1, 5))
                 env["hw%d" % i] = (env["X%d" % i] - env["x%d" % i]) / 2
                 env["hh%d" % i] = (env["Y%d" % i] - env["y%d" % i]) / 2
+                for m in ("mnx", "mny", "mxx", "mxy"):
+                    env["%s%d" % (m, i)] = Fraction(rng.randint(0, 3))
             hit = None
             for val, descr, out in rows:
                 ok = True
@@ -121,39 +140,77 @@ def rule_form(chk, prog):
                     hit = out
                     break
             if hit is None:
-                bad = bad or "no leaf of the decision tree covers rectangles %s" % {k: str(v) for k, v in env.items()}
+                bad = bad or "no leaf of the decision tree covers configuration %s" % {k: str(v) for k, v in env.items()}
                 continue
             n_pts += 1
             if hit[0] != "ret":
-                bad = bad or "assertion path for valid rectangles: %s" % hit[1]
+                bad = bad or "assertion path for a valid configuration: %s" % hit[1]
                 continue
-            lo, hi = ("x", "X") if dim == 1 else ("y", "Y")       # the *other* dimension
-            ov = min(env[hi + "0"], env[hi + "1"]) - max(env[lo + "0"], env[lo + "1"])
+
+            def ext(i, axis, side):         # extent of object i along `axis` including its cluster margin
+                v = env[(axis if side == "lo" else axis.upper()) + str(i)]
+                if kinds[i] == "c":
+                    v = v - env["mn%s%d" % (axis, i)] if side == "lo" else v + env["mx%s%d" % (axis, i)]
+                return v
+            ov = min(ext(0, O, "hi"), ext(1, O, "hi")) - max(ext(0, O, "lo"), ext(1, O, "lo"))
             cs = hit[1].items
-            c0 = (env[("x" if dim == 0 else "y") + "0"] + env[("X" if dim == 0 else "Y") + "0"]) / 2
-            c1 = (env[("x" if dim == 0 else "y") + "1"] + env[("X" if dim == 0 else "Y") + "1"]) / 2
+            c = [(env[D + str(i)] + env[D.upper() + str(i)]) / 2 for i in (0, 1)]
             if ov > 0:
                 if len(cs) != 1:
-                    bad = bad or "rectangles overlapping by %s in the other dimension get %d constraints in dimension %d" % (ov, len(cs), dim)
+                    bad = bad or "objects overlapping by %s in the other dimension get %d constraints in dimension %d" % (ov, len(cs), dim)
                     continue
-                c = cs[0]
-                left, right = c.f["left"].f["id"], c.f["right"].f["id"]
-                want = (0, 1) if c0 < c1 else (1, 0)
-                gap = to_poly(c.f["gap"]).eval_exact(env)
-                wantgap = env[("hw" if dim == 0 else "hh") + "0"] + env[("hw" if dim == 0 else "hh") + "1"]
+                con = cs[0]
+                left, right = con.f["left"].f["id"], con.f["right"].f["id"]
+                lo, hi = (0, 1) if c[0] < c[1] else (1, 0)
+                hivar = lambda i: index(i) + (1 if kinds[i] == "c" else 0)
+                lovar = lambda i: index(i)
+                half = lambda i: env[("hw" if dim == 0 else "hh") + str(i)]
+                above = lambda i: env["mx%s%d" % (D, i)] if kinds[i] == "c" else half(i)
+                below = lambda i: env["mn%s%d" % (D, i)] if kinds[i] == "c" else half(i)
+                want = (hivar(lo), lovar(hi))
+                if c[0] == c[1] and (left, right) == (hivar(hi), lovar(lo)):
+                    lo, hi = hi, lo             # coincident centres: either order separates them
+                    want = (left, right)
+                gap = to_poly(con.f["gap"]).eval_exact(env)
+                wantgap = above(lo) + below(hi)
                 if (left, right) != want:
-                    bad = bad or "centres %s,%s: constraint orders variables %s, expected %s" % (c0, c1, (left, right), want)
+                    bad = bad or ("centres %s,%s: constraint is between variables %s, expected %s (high side of the lower object, low side of "
+                                  "the upper one)" % (c[0], c[1], (left, right), want))
                 elif gap != wantgap:
-                    bad = bad or "gap %s, expected sum of half extents %s in dimension %d" % (gap, wantgap, dim)
-                elif c.f.get("creator") is not hit[2]:
+                    bad = bad or "gap %s, expected %s (extent of the lower object above its variable + extent of the upper below)" % (gap, wantgap)
+                elif con.f.get("creator") is not hit[2]:
                     bad = bad or "creator not recorded on the non-overlap constraint"
-                elif c.f.get("equality"):
+                elif con.f.get("equality"):
                     bad = bad or "non-overlap constraint emitted as an equality"
             else:
                 if cs:
-                    bad = bad or "rectangles disjoint in the other dimension (overlap %s) still get a constraint in dimension %d" % (ov, dim)
+                    bad = bad or "objects disjoint in the other dimension (overlap %s) still get a constraint in dimension %d" % (ov, dim)
+        return n_pts, bad, len(rows)
+
+
+
+
+def rule_form(chk, prog):
+    r = chk.rule("NONOVERLAP-FORM", "decision tree of NonOverlapConstraints::generateSeparationConstraints(dim) for one pair of objects, each a "
+                 "plain shape or a cluster (boundary variables clusterVarId / clusterVarId+1, margin box), with symbolic rectangles; for "
+                 "sampled integer configurations per dimension and kind pair the leaf reached emits a constraint iff the (margin-extended) "
+                 "rectangles overlap in the other dimension, from the upper-boundary variable of the object with the lower centre to the "
+                 "lower-boundary variable of the other, with gap above(lower) + below(upper), creator recorded", floor=8)
+    fn = prog.fn("cola::NonOverlapConstraints::generateSeparationConstraints")
+    addf = prog.fn("cola::NonOverlapConstraints::addShape")
+    addc = prog.fn("cola::NonOverlapConstraints::addCluster")
+    global _FORM_PROG
+    _FORM_PROG = prog
+    import multiprocessing
+    jobs = [(dim, kinds) for dim in (0, 1) for kinds in (("s", "s"), ("s", "c"), ("c", "s"), ("c", "c"))]
+    with multiprocessing.get_context("fork").Pool(8) as pool:
+        res = pool.map(_form_worker, jobs)
+    for (dim, kinds), (n_pts, bad, nrows) in zip(jobs, res):
+        if n_pts is None:
+            raise AnalysisBroken("generateSeparationConstraints outside the interpreter subset: %s" % bad)
         r.count(n_pts)
-        (r.bad if bad else r.ok)("generateSeparationConstraints/dim%d" % dim, fn.where(), bad or "%d leaves, %d samples" % (len(rows), n_pts))
+        (r.bad if bad else r.ok)("generateSeparationConstraints/dim%d/%s-%s" % (dim, kinds[0], kinds[1]), fn.where(),
+                                 bad or "%d leaves, %d samples" % (nrows, n_pts))
 
 
 def rule_sites(chk, prog):
@@ -245,9 +302,58 @@ def rule_wiring(chk, prog):
     (r.bad if bad else r.ok)("recGenerateClusterVariablesAndConstraints", fn.where(), bad or "")
 
 
+def rule_exempt(chk, prog):
+    r = chk.rule("EXEMPT-GROUPS", "interpreting NonOverlapConstraintExemptions::addExemptGroupOfNodes on groups {3,1,1},{2,5},{4},{6,7,8}: "
+                 "the exempt pairs are exactly the unordered pairs of distinct ids *within* one group; shapePairIsExempt answers membership "
+                 "for both orders; addShape with these exemptions drops exactly those pairs", floor=3)
+    from ..microai.interp import default_obj
+    fn = prog.fn("cola::NonOverlapConstraintExemptions::addExemptGroupOfNodes")
+    isx = prog.fn("cola::NonOverlapConstraintExemptions::shapePairIsExempt")
+    addf = prog.fn("cola::NonOverlapConstraints::addShape")
+    ex = default_obj(prog, "cola::NonOverlapConstraintExemptions", {})
+    groups = [[3, 1, 1], [2, 5], [4], [6, 7, 8]]
+    it = Interp(prog, Oracle([]))
+    try:
+        it.call(fn, ex, None, None, arg_values=[Vec([Vec(list(g), "unsigned int") for g in groups], "std::vector<unsigned int>")])
+        got = sorted((p.f["m_index1"], p.f["m_index2"]) for p in ex.f["m_exempt_pairs"].items)
+        want = sorted({(min(a, b), max(a, b)) for g in groups for a in g for b in g if a != b})
+        r.count()
+        (r.ok if got == want else r.bad)("addExemptGroupOfNodes", fn.where(),
+                                         "" if got == want else "exempt pairs %s, expected %s (pairs within each declared group only)" % (got, want))
+        bad = None
+        n = 0
+        for a in range(1, 9):
+            for b in range(1, 9):
+                if a == b:
+                    continue
+                sp = Obj("cola::ShapePair", {"m_index1": min(a, b), "m_index2": max(a, b)})
+                ans = it.call(isx, ex, None, None, arg_values=[sp])
+                n += 1
+                if bool(ans) != ((min(a, b), max(a, b)) in want):
+                    bad = bad or "shapePairIsExempt(%d,%d) = %s" % (a, b, ans)
+        r.count(n)
+        (r.bad if bad else r.ok)("shapePairIsExempt", isx.where(), bad or "")
+        noc = fresh_noc()
+        noc.f["m_exemptions"] = ex
+        for i in range(1, 9):
+            it.call(addf, noc, None, None, arg_values=[i, Fraction(1), Fraction(1), 1, SetVal()])
+        pairs = sorted((p.f["varIndex1"], p.f["varIndex2"]) for p in noc.f["pairInfoList"].items)
+        wantp = sorted((a, b) for a in range(1, 9) for b in range(a + 1, 9) if (a, b) not in want)
+        r.count(len(wantp))
+        (r.ok if pairs == wantp else r.bad)("addShape with exemptions", addf.where(),
+                                            "" if pairs == wantp else "non-overlap pairs missing %s, unexpected %s" %
+                                            (sorted(set(wantp) - set(pairs)), sorted(set(pairs) - set(wantp))))
+    except Unsupported as e:
+        raise AnalysisBroken("exemption code outside the interpreter subset: %s" % e)
+    except AssertFail as e:
+        r.count()
+        r.bad("addExemptGroupOfNodes", fn.where(), "assertion fails for valid groups: %s" % e)
+
+
 def run(chk):
     prog = chk.load()
     rule_pairs(chk, prog)
+    rule_exempt(chk, prog)
     rule_form(chk, prog)
     rule_sites(chk, prog)
     rule_wiring(chk, prog)
